@@ -9,6 +9,7 @@ type vGuardRec struct {
 	target    int
 	repl      int
 	cancelled bool
+	applied   bool // Apply has been called on it (a guard is created un-applied)
 	tracked   bool // still the patch-table entry of its target (no UnpatchAll / re-mock since)
 }
 
@@ -16,6 +17,7 @@ var vGuards [8]vGuardRec
 var vNumGuards int
 var vReplFns = [3]interface{}{vReplA, vReplB, vReplC}
 var vOpNames = [6]string{"op0", "op1", "op2", "op3", "op4", "op5"}
+var vLateNames = [6]string{"late0", "late1", "late2", "late3", "late4", "late5"}
 var vArgNames = [6]string{"arg0", "arg1", "arg2", "arg3", "arg4", "arg5"}
 
 // vLiveT: the entry window of target t currently holds a jump (of the guard vWin[t]).
@@ -107,7 +109,19 @@ func vHistory(K int) {
 				// tracks: not one of the property's operations
 				return
 			}
-			rec.g.Restore()
+			if !rec.applied {
+				// a guard that was created but not applied yet: Restore has nothing to
+				// re-apply (the target stays as it is), Apply installs it
+				if verifBool(vLateNames[step]) {
+					rec.g.Apply()
+					rec.applied = true
+				} else {
+					rec.g.Restore()
+					break
+				}
+			} else {
+				rec.g.Restore()
+			}
 			rec.cancelled = false
 			vLiveT[rec.target] = true
 			vWin[rec.target] = gi
@@ -120,13 +134,22 @@ func vHistory(K int) {
 			if err != nil {
 				return
 			}
-			g.Apply()
 			for j := 0; j < vNumGuards; j++ {
 				if vGuards[j].target == ti {
 					vGuards[j].tracked = false
 				}
 			}
-			vGuards[vNumGuards] = vGuardRec{g: g, target: ti, repl: r, tracked: true}
+			if verifBool(vLateNames[step]) {
+				// the guard is kept un-applied for now (the constructor has taken a former
+				// mock of the target off): the target is pristine
+				vGuards[vNumGuards] = vGuardRec{g: g, target: ti, repl: r, tracked: true}
+				vNumGuards++
+				vLiveT[ti] = false
+				vWin[ti] = -1
+				break
+			}
+			g.Apply()
+			vGuards[vNumGuards] = vGuardRec{g: g, target: ti, repl: r, tracked: true, applied: true}
 			vWin[ti] = vNumGuards
 			vNumGuards++
 			vLiveT[ti] = true
@@ -140,6 +163,9 @@ func vHistory(K int) {
 			gi := verifChoice(vArgNames[step], vNumGuards)
 			rec := &vGuards[gi]
 			rec.g.UnpatchWithLock()
+			if !rec.applied {
+				break // cancelling a guard that was never applied changes nothing
+			}
 			rec.cancelled = true
 			// the target of that guard is pristine again right after the cancel
 			vWindowPristine(snap, ts[rec.target], "C02.hist.cancel-restores-window")
